@@ -384,7 +384,7 @@ func init() {
 			"a directive counts as covered when an accepted configuration used it, except secremoterules, whose handler returns 'not implemented' for every argument and counts when dispatched",
 			"rule sets whose own semantics grow a variable exponentially (setvar:tx.a=%{tx.a}%{tx.a} run once per matched value) are not generated: the unbounded work is what that configuration asks for, not a defect of the interpreter (seen once during development: 2^n bytes after n matches)",
 			"kept out of the population (candidate known finding, notes/findings/C07.md): audit logging with parts H and K of a rule that matched hundreds of values costs ProcessLogging super-linear CPU (class cpu:ProcessLogging); configurations mentioning the audit engine get JSON/XML bodies nested at most 48 levels so that one rule matches few values",
-			"kept out of the population (candidate known finding, notes/findings/C07.md): the JSON body processor builds one key per nesting level by copying the parent key (quadratic in the depth); response bodies have no depth limit (the repository's own test pins that), so a 32 KiB response of '[' costs > 15 CPU-s in ProcessResponseBody (class cpu:ProcessResponseBody). Generated bodies are cut at 4096 unclosed brackets and SecRequestBodyJsonDepthLimit is swept up to 4000",
+			"kept out of the population (candidate known finding, notes/findings/C07.md): the JSON body processor builds one key per nesting level by copying the parent key (quadratic in the depth); response bodies have no depth limit (the repository's own test pins that), so a 32 KiB response of '[' costs > 15 CPU-s in ProcessResponseBody (class cpu:ProcessResponseBody). Generated bodies are cut at 2048 unclosed brackets and SecRequestBodyJsonDepthLimit is swept up to 2000",
 			"@inspectFile is given a non-existent program path and @rbl an .invalid zone: no external program or network is needed",
 		},
 		Required: []string{"names_complete", "configs_accepted", "configs_rejected", "mutants_accepted", "transactions", "transactions_with_matched_rules", "transactions_interrupted"},
